@@ -45,6 +45,7 @@ func c02CheckRoundTrip(c GoCase) *pbt.Violation {
 		d.NetworkFormat(c.Network)
 		name, err = d.Decode(fresh.Interface())
 	})
+	noiseNBT()
 	if pv != nil {
 		return pbt.V(pbt.PanicKey("nbt.decode", stack), "decoding does not panic", "Unmarshal into %s panicked: %v\n%s", typ, pv, stack)
 	}
@@ -214,11 +215,13 @@ func c02CheckCarrier(c C02Carrier) *pbt.Violation {
 	var name string
 	var err error
 	var out bytes.Buffer
+	noiseNBT()
 	pv, stack := pbt.Try(func() {
 		d := nbt.NewDecoder(bytes.NewReader(doc))
 		d.NetworkFormat(c.Network)
 		name, err = d.Decode(dst)
 	})
+	noiseNBT() // the carrier holds what it decoded, whatever is decoded or encoded next
 	if pv != nil {
 		return pbt.V(pbt.PanicKey("carrier.decode."+c.Carrier, stack), "no panic", "decode into %T panicked: %v\n%s", dst, pv, stack)
 	}
@@ -230,6 +233,7 @@ func c02CheckCarrier(c C02Carrier) *pbt.Violation {
 		e.NetworkFormat(c.Network)
 		err = e.Encode(dst, name)
 	})
+	noiseNBT()
 	if pv != nil {
 		return pbt.V(pbt.PanicKey("carrier.encode."+c.Carrier, stack), "no panic", "encode of %T panicked: %v\n%s", dst, pv, stack)
 	}
